@@ -40,8 +40,11 @@ def _cmp(rows):
             n += 1
             order = W - deriv
             dx = 0.5
+            # the model speaks about a SET of offsets: the order in which a user lists them must not matter
+            k = (N + len(offs) + deriv) % 3
+            given = list(offs) if k == 0 else list(reversed(offs)) if k == 1 else list(offs[1:]) + list(offs[:1])
             try:
-                A, b = get_finite_difference_matrix(derivative=deriv, order=order if bc == 'dirichlet' else None, steps=np.array(offs),
+                A, b = get_finite_difference_matrix(derivative=deriv, order=order if bc == 'dirichlet' else None, steps=np.array(given),
                                                     dx=dx, size=N, dim=1, bc='periodic' if bc == 'periodic' else 'dirichlet-zero',
                                                     bc_params=None if bc == 'periodic' else {'val': 3.0})
             except Exception as e:  # noqa
@@ -50,6 +53,9 @@ def _cmp(rows):
             A = np.asarray(A.todense()) * dx ** deriv
             b = np.asarray(b) * dx ** deriv
             w, st = get_finite_difference_stencil(derivative=deriv, steps=np.array(offs))
+            w2, st2 = get_finite_difference_stencil(derivative=deriv, steps=np.array(given))
+            if list(st2) != list(st) or not np.allclose(w2, w, rtol=1e-12, atol=1e-14):
+                bad.append(dict(case=[offs, N, bc, W, deriv], why=f'stencil for the offsets listed as {given} differs from the one for {list(offs)}'))
             exp = np.zeros((N, N))
             expb = np.zeros(N)
             cache = {}
